@@ -174,6 +174,7 @@ theorem Rdr.read_sound (r : Rdr) : ∀ (n : Nat), (r.read n).wrote.length ≤ n 
     ∀ k, (r.read n).ret = .ok k → k ≤ (r.read n).wrote.length ∨ n < k := by
   induction r with
   | slice bs => intro n; simp [Rdr.read]; omega
+  | file bs => intro n; simp [Rdr.read]; omega
   | rep b => intro n; simp [Rdr.read]
   | empty => intro n; simp [Rdr.read]
   | liar c f => intro n; simp [Rdr.read]; omega
